@@ -2323,9 +2323,7 @@ class Statements(Sequence, Immutable):
         g = self._create_dependency_graph()
         index = self.index(statement)
         succ = sorted(list(g.successors(index)))
-        stats = Statements()
-        stats._statements = [self[i] for i in succ]
-        return stats
+        return Statements(tuple(self[i] for i in succ))
 
     def dependencies(self, symbol_or_statement: Union[TSymbol, Statement]) -> set[Expr]:
         """Find all dependencies of a symbol or statement
